@@ -1,7 +1,6 @@
 ---- MODULE MC_UriModel ----
 (* Standalone model check of the C30 reference: targets printed from components are analysed back into the class the
-   port text has by definition; the implementation-shaped layer agrees with the reference except for the named
-   deviation (atoi: sign, trailing bytes, wrap-around). *)
+   port text has by definition; the implementation-shaped layer agrees with the reference on its simple subset. *)
 EXTENDS UriModelImpl
 S(str) == str
 Schemes == {<<104, 116, 116, 112>>, <<72, 84, 84, 80, 83>>, <<102, 116, 112>>, <<103, 111>>}          \* http HTTPS ftp go
@@ -18,17 +17,15 @@ vars == <<sc, us, ho, po, ta>>
 Init == sc \in Schemes /\ us \in Users /\ ho \in Hosts /\ po \in Ports \cup {<<<<>>, "none", 0>>} /\ ta \in Tails
 Next == UNCHANGED vars
 Target == sc \o <<58, 47, 47>> \o us \o ho \o (IF po[2] = "none" THEN <<>> ELSE <<58>> \o po[1]) \o ta
-Deviation(t) == Len(t) > 0 /\ (t[1] \in {43, 45} \/ (IsDigit(t[1]) /\ (~AllDigits(t) \/ ~Leq(WVal(t), Port65535))))
 Laws ==
   LET a == Analyse(FALSE, Target)
       c == HostPort(ho \o (IF po[2] = "none" THEN <<>> ELSE <<58>> \o po[1]))
       m == ISimple(Target, FALSE) IN
   /\ a.cls = po[2] /\ a.v = po[3] /\ a.scheme = LowerSeq(sc)
   /\ c.cls = po[2] /\ c.v = po[3]                                   \* authority form (CONNECT)
-  /\ (m.simple /\ ~Deviation(po[1])) =>
+  /\ m.simple =>
         /\ a.cls = "bad" => ~m.ok
         /\ (m.ok /\ a.cls = "valid") => m.port = a.v
         /\ (m.ok /\ a.cls = "none") => m.port = DefaultPort(a.scheme)
         /\ m.ok => HostOk(m.host)
-  /\ (m.simple /\ po[1] = <<52, 50, 57, 52, 57, 54, 55, 51, 55, 54>>) => (m.ok /\ m.port = 80)     \* D1 is modelled
 ====
